@@ -23,7 +23,7 @@ import types
 
 import z3
 
-from . import sym, pydshim, ghost
+from . import sym, pydshim, ghost, timeabs
 
 REPO = os.environ.get("PSVC_REPO", "/repo")
 PKG = "processscheduler"
@@ -64,6 +64,7 @@ class Loaded:
         self.stubs = stubs or {}
         self.z3shim = _Z3Shim()
         self.ghost_modules = ghost.ghost_modules()
+        self.datetime_shim = timeabs.shim_module()
         self.builtins = dict(vars(builtins))
         self.builtins.update(
             {
@@ -99,6 +100,8 @@ class Loaded:
             return self.z3shim
         if top in ("rich", "plotly"):
             raise ImportError(f"{name} is not available under psvc")
+        if name == "datetime":
+            return self.datetime_shim
         if name in self.ghost_modules:
             mod = self.ghost_modules[name]
             if fromlist:
